@@ -367,6 +367,35 @@ class P(Property):
                         out.append('send.req m=%s s=%s a=%s p=%s x=%s h=%s' % (hx(b'CONNECT'), sc, au, pa, x, fl(h)))
             out.append('send.req m=%s s=- a=%s p=- x=%s h=-' % (hx(b'CONNECT'), hx(b'h:443'), x))
             out.append('send.req m=%s s=- a=- p=%s x=%s h=%s' % (hx(b'CONNECT'), hx(b'/p?q'), x, fl([(b'host', b'h')])))
+        # mixed-case authority / scheme with and without a Host field; :80 with http; dot segments, percent-encoding,
+        # empty query, leading //; long values and large maps: "with the values the caller supplied", byte for byte
+        for a in (b'EXAMPLE.com', b'Example.COM:443', b'h:80', b'H', b'user@Host', b'[::1]:80', b'xn--nxasmq6b.Example'):
+            for sc in (b'https', b'HTTPS', b'Http', b'http', b'h2c+X'):
+                for pa in (b'/', b'/a/../b', b'/./a', b'/a/..', b'/%7e', b'/%7E%2f', b'/a?', b'//a', b'/a/./b?x=../y', b'/..', b'/A/b'):
+                    if tier == 'quick' and rng.random() < 0.6:
+                        continue
+                    hh = rng.choice([[], [(b'host', a)], [(b'host', a.lower())], [(b'x', b'y'), (b'host', a)]])
+                    out.append('send.req m=%s s=%s a=%s p=%s x=- h=%s' % (hx(rng.choice([b'GET', b'POST', b'HEAD'])), hx(sc), hx(a), hx(pa), fl(hh)))
+            out.append('send.req m=474554 s=6874747073 a=%s p=2f x=- h=-' % hx(a))
+            out.append('send.req m=474554 s=- a=- p=2f x=- h=%s' % fl([(b'host', a)]))
+            out.append('send.req m=434f4e4e454354 s=- a=%s p=- x=- h=-' % hx(a))
+        for pa in (b'/a/../b', b'/./a', b'/a/..', b'/%7e', b'/a?', b'//a', b'/a/b/../../c?d=e', b'/.', b'/..', b'/a//b', b'/a/%2e%2e/b'):
+            for au, sc in ((b'h', b'https'), (b'h:80', b'http'), (b'h:443', b'https')):
+                out.append('send.req m=474554 s=%s a=%s p=%s x=- h=-' % (hx(sc), hx(au), hx(pa)))
+            out.append('send.req m=474554 s=- a=- p=%s x=- h=%s' % (hx(pa), fl([(b'host', b'h')])))
+        for n in (50, 300, 5000, 70000):
+            v = bytes((0x21 + (i * 7) % 94) for i in range(n))
+            big = [(b'x-long', v), (b'a', b'1'), (b'x-long', v[::-1]), (b'cookie', b'k=' + v[:n // 2])]
+            out.append('send.req m=474554 s=6874747073 a=68 p=2f x=- h=%s' % fl(big))
+            out.append('send.resp st=200 h=%s' % fl(big))
+            out.append('send.trl h=%s' % fl(big))
+        for n in (65, 100, 400):
+            many = [(b'n%d-%s' % (i % (n // 3), b'x' * (i % 40)), b'v%d' % i) for i in range(n)]
+            out.append('send.req m=504f5354 s=6874747073 a=68 p=2f x=- h=%s' % fl(many))
+            out.append('send.resp st=404 h=%s' % fl(many))
+            out.append('send.trl h=%s' % fl(many))
+        for st in list(range(100, 1000, 53)) + [101, 103, 204, 304, 418, 451, 599, 600, 999]:
+            out.append('send.resp st=%d h=%s' % (st, fl([(b'content-length', b'0')])))
         names = [b'a', b'b', b'host', b'set-cookie', b'x-y', b'accept']
         for _ in range(1500 if tier == 'quick' else 100000):
             h = [(rng.choice(names), rng.choice([b'1', b'2', b'h', b'', b'v w'])) for _ in range(rng.randint(0, 8))]
@@ -418,7 +447,12 @@ class P(Property):
         if w[0] in ('hdr.req', 'hdr.resp'):
             return ['e2e.' + w[0][4:] + ' ' + w[1]]
         if w[0] == 'hdr.trl':
-            return ['e2e.trl srv ' + w[1], 'e2e.trl cli ' + w[1]]
+            # recv_data then recv_trailers (both roles), plus one of the other arms of poll_recv_trailers per role:
+            # direct read / Pending with the block stashed again / frame cut across polls (chosen by the case text)
+            modes = ('direct', 'split', 'split2')
+            k = sum(w[1].encode()) % 3
+            return ['e2e.trl srv ' + w[1], 'e2e.trl cli ' + w[1],
+                    'e2e.trlx srv %s %s' % (modes[k], w[1]), 'e2e.trlx cli %s %s' % (modes[(k + 1) % 3], w[1])]
         if w[0] == 'hdr.many':
             kinds = ['trl.srv', 'trl.cli'] if w[1] == 'trl' else [w[1]]
             return ['e2e.many %s %s' % (k, ' '.join(w[2:])) for k in kinds]
@@ -478,14 +512,14 @@ class P(Property):
         if rs != flat or any(n.startswith(b':') for n, _ in rs):
             return False
         idx = [PSEUDO_ORDER.index(n) if n in PSEUDO_ORDER else -1 for n, _ in ps]
-        if -1 in idx or idx != sorted(set(idx)) or len(idx) != len(set(idx)):
-            return False
+        if -1 in idx or len(idx) != len(set(idx)):
+            return False          # only defined pseudo fields, each at most once (no order among them is demanded)
         d = dict(ps)
         fam = case.split()[0]
         if fam == 'send.trl':
             return not ps
         if fam == 'send.resp':
-            return list(d.keys()) == [b':status'] and d[b':status'] == args['st'].encode()
+            return set(d.keys()) == {b':status'} and d[b':status'] == args['st'].encode()
         if d.get(b':method') != bytes.fromhex(args['m']):
             return False
         if b':status' in d:
